@@ -16,12 +16,24 @@ fn ends(v: &QValue) -> Option<(f64, f64)> {
         QValue::Text(_) => None,
     }
 }
-/// multiplicative amount of a quantity: value x unit ratio for a known unit, the bare value otherwise
-fn amount(v: &QValue, unit: Option<&str>, conv: &Converter) -> Option<(f64, f64, String)> {
+/// the standard definitions the specification carries (CookConvert!StdDefs, printed by MC_Convert): symbol -> ratio to the base unit
+static STD: std::sync::OnceLock<std::collections::HashMap<String, f64>> = std::sync::OnceLock::new();
+
+fn std_ratio(symbol: &str) -> Option<f64> {
+    let key = if symbol == "fl oz" { "floz" } else { symbol };
+    STD.get().and_then(|m| m.get(key).copied())
+}
+
+/// multiplicative amount of a quantity: value x unit ratio for a known unit, the bare value otherwise; with the
+/// library's ratio and, when the specification has a standard definition for the unit's symbol, with that one too
+fn amount(v: &QValue, unit: Option<&str>, conv: &Converter) -> Option<(f64, f64, String, Option<(f64, f64)>)> {
     let (lo, hi) = ends(v)?;
     match unit.and_then(|u| conv.find_unit(u)) {
-        Some(u) => Some((lo * u.ratio, hi * u.ratio, u.physical_quantity.to_string())),
-        None => Some((lo, hi, format!("raw:{}", unit.unwrap_or("")))),
+        Some(u) => {
+            let std = if u.difference == 0.0 { std_ratio(u.symbol()).map(|r| (lo * r, hi * r)) } else { None };
+            Some((lo * u.ratio, hi * u.ratio, u.physical_quantity.to_string(), std))
+        }
+        None => Some((lo, hi, format!("raw:{}", unit.unwrap_or("")), None)),
     }
 }
 fn unscaled(v: &ScalableValue) -> &QValue {
@@ -45,9 +57,17 @@ fn component(before: Option<(&QValue, Option<&str>)>, after: Option<(&QValue, Op
     let (mult_f, same) = match (before, after) {
         (None, None) => (false, true),
         (Some((bv, bu)), Some((av, au))) => match (amount(bv, bu, conv), amount(av, au, conv)) {
-            (Some((blo, bhi, bq)), Some((alo, ahi, aq))) => {
+            (Some((blo, bhi, bq, bstd)), Some((alo, ahi, aq, astd))) => {
                 let class_ok = bq == aq;
-                (class_ok && rel_close(alo, blo * f) && rel_close(ahi, bhi * f), class_ok && rel_close(alo, blo) && rel_close(ahi, bhi))
+                // measured with the specification's standard definitions when both units have one (so that a wrong ratio
+                // inside the library cannot cancel out; the tables agree to 1e-6), with the library's ratios otherwise
+                match (bstd, astd) {
+                    (Some((sblo, sbhi)), Some((salo, sahi))) => {
+                        let close = |a: f64, b: f64| (a - b).abs() <= 1e-6 * b.abs().max(1e-12);
+                        (class_ok && close(salo, sblo * f) && close(sahi, sbhi * f), class_ok && close(salo, sblo) && close(sahi, sbhi))
+                    }
+                    _ => (class_ok && rel_close(alo, blo * f) && rel_close(ahi, bhi * f), class_ok && rel_close(alo, blo) && rel_close(ahi, bhi)),
+                }
             }
             (None, None) => (false, bv == av && bu == au), // text values: verbatim
             _ => (false, false),
@@ -144,6 +164,18 @@ pub fn observe_scale(text: &str, bits: u32, conv_name: &str, f: f64, pred_base: 
 /// `scale --in docs.ndjson --out obs.ndjson --factors 0.5,2,...`
 pub fn main(args: &[String]) {
     let recs = read_ndjson(req_arg(args, "--in"));
+    if let Some(p) = arg(args, "--std") {
+        let std: Value = serde_json::from_str(&std::fs::read_to_string(p).expect("std file")).expect("std json");
+        let mut m = std::collections::HashMap::new();
+        if let Some(defs) = std["defs"].as_object() {
+            for (k, v) in defs {
+                if let Some(x) = v.as_str().and_then(|x| x.parse::<f64>().ok()) {
+                    m.insert(k.clone(), x);
+                }
+            }
+        }
+        let _ = STD.set(m);
+    }
     let factors: Vec<f64> = arg(args, "--factors").unwrap_or("0.5,2").split(',').map(|x| x.parse().unwrap()).collect();
     let out: Vec<Value> = recs
         .par_iter()
